@@ -30,6 +30,10 @@ func (vc *VC) assertsAfter(d *ssa.DebugRef) {
 		env := vc.pointEnv(d)
 		R := vc.R[vc.cur]
 		goal := vc.evalBool(c.E, env)
+		cv := vc.oblige("cover", R, "false", d.Pos(), "cover: the point of assert "+fmt.Sprint(c.Ord)+" is reachable")
+		cv.Cover = true
+		cv.Name = fmt.Sprintf("%s#cover.assert.%d", vc.fname(), c.Ord)
+		cv.Tags = c.Tags
 		o := vc.oblige("assert", R, goal, d.Pos(), c.Text)
 		o.Name = fmt.Sprintf("%s#assert.%d", vc.fname(), c.Ord)
 		o.Tags = c.Tags
@@ -100,6 +104,10 @@ func (vc *VC) assertsAtSelect(x *ssa.Select) {
 		env := vc.pointEnvAt(x.Block(), x)
 		R := vc.R[vc.cur]
 		goal := vc.evalBool(c.E, env)
+		cv := vc.oblige("cover", R, "false", x.Pos(), "cover: the point of assert "+fmt.Sprint(c.Ord)+" is reachable")
+		cv.Cover = true
+		cv.Name = fmt.Sprintf("%s#cover.assert.%d", vc.fname(), c.Ord)
+		cv.Tags = c.Tags
 		o := vc.oblige("assert", R, goal, x.Pos(), c.Text)
 		o.Name = fmt.Sprintf("%s#assert.%d", vc.fname(), c.Ord)
 		o.Tags = c.Tags
